@@ -426,6 +426,18 @@ def check(ctx):
             _field_rule(ctx, f, c, cls, fields, schema)
     if n_ctor < 29:
         run.error('C05.fields', jmod.name, '-', 'constructor sites', f'only {n_ctor} ast constructions found (29 confirmed)')
+    # the typed getters themselves: a well-typed value under the key - a falsy one included - is handed back unchanged
+    from .shared import getters_by_interpretation
+    gi = getters_by_interpretation(ctx)
+    if gi is not None:
+        probs, n_eval = gi
+        lost = [t for _g, k, t in probs if k == 'lost']
+        for g in sorted({g for g, _k, _t in probs} | {m for m in prog.cls('json_ast', 'ElementHelper').methods if m.endswith('_value')}):
+            mine = [t for g2, k, t in probs if g2 == g and k == 'lost']
+            run.add('C05.fields', jmod.name, f'ElementHelper.{g}', f'{g}: present / absent x 13 kinds of value', not mine,
+                    f'{g} hands back every value of its type that is written under the key, unchanged (0, "", {{}}, [] included)' if not mine else
+                    '; '.join(mine[:2]))
+        run.stats['getters_decided_by'] = f'interpretation of the ElementHelper getters on {n_eval} elements (E7)'
     run.floor('C05.fields', 60)
     run.floor('C05.order', 9)
     _verbatim_rule(ctx, jmod, amod)
